@@ -536,3 +536,91 @@ func carries(v, e ssa.Value) bool {
 	}
 	return false
 }
+
+// onlyLogged: every use of v (followed through string concatenation,
+// conversions, boxing, variadic packing and fmt.Sprint*) ends as an argument
+// of the logger — the value takes part in no decision and in no response.
+func onlyLogged(r *core.Run, v ssa.Value) bool {
+	seen := map[ssa.Value]bool{}
+	var walk func(v ssa.Value) bool
+	walk = func(v ssa.Value) bool {
+		if seen[v] {
+			return true
+		}
+		seen[v] = true
+		refs := v.Referrers()
+		if refs == nil {
+			return false
+		}
+		n := 0
+		for _, u := range *refs {
+			switch x := u.(type) {
+			case *ssa.DebugRef:
+			case *ssa.MakeInterface, *ssa.ChangeType, *ssa.Convert, *ssa.Slice, *ssa.ChangeInterface:
+				n++
+				if !walk(x.(ssa.Value)) {
+					return false
+				}
+			case *ssa.BinOp:
+				n++
+				if x.Op != token.ADD || !walk(x) {
+					return false
+				}
+			case *ssa.Store:
+				n++
+				if x.Val != v {
+					return false
+				}
+				var al *ssa.Alloc
+				switch a := x.Addr.(type) {
+				case *ssa.IndexAddr:
+					al, _ = a.X.(*ssa.Alloc)
+				case *ssa.FieldAddr:
+					al, _ = a.X.(*ssa.Alloc) // a local struct made for the log line
+				}
+				if al == nil {
+					return false
+				}
+				// the packed variadic array: only element stores and one Slice
+				for _, au := range *al.Referrers() {
+					switch y := au.(type) {
+					case *ssa.IndexAddr, *ssa.DebugRef:
+					case *ssa.FieldAddr:
+						for _, fu := range *y.Referrers() {
+							if _, isStore := fu.(*ssa.Store); !isStore {
+								return false
+							}
+						}
+					case *ssa.Slice:
+						if !walk(y) {
+							return false
+						}
+					case *ssa.UnOp:
+						if !walk(y) {
+							return false
+						}
+					default:
+						return false
+					}
+				}
+			case ssa.CallInstruction:
+				n++
+				cn := r.P.CalleeName(x)
+				switch {
+				case strings.Contains(cn, "Logger") || strings.HasPrefix(cn, "log.") || strings.HasPrefix(cn, "(*log.Logger)"):
+				case cn == "fmt.Sprintf" || cn == "fmt.Sprint" || cn == "fmt.Sprintln" || cn == "strconv.Quote" || cn == "strconv.Itoa" || cn == "strconv.FormatInt":
+					val, ok := x.(ssa.Value)
+					if !ok || !walk(val) {
+						return false
+					}
+				default:
+					return false
+				}
+			default:
+				return false
+			}
+		}
+		return n > 0
+	}
+	return walk(v)
+}
